@@ -1,5 +1,9 @@
 """Per-property manifest entries that grow as checks are built (merged by tools_gen_manifest.py)."""
 CLAIMED = {
+ "C16": dict(level="exploration", ref="DESIGN.md §7",
+    technique="seeded history search against an executable reference model (ShardStore-style half of deterministic simulation): exhaustive depth-4/5 histories then random long histories, pickle as restart-from-durable-state, failing operations as faults; no scheduler involved",
+    text="Every history of depth 4 (quick) / 5 (thorough) over a 14-operation alphabet is enumerated, then random histories of length 5-60 over a 22-item alphabet with colliding, keyword, digit-leading and method-like short names and a pool of live copies; all invariants of the statement are checked through the public API after every step on every live list. Exhaustive only up to that depth and alphabet.",
+    note="Trusts the reference model (a Python list of identities) and CPython's copy/pickle. The same object is never inserted twice. No concurrency, clock or I/O exists in this class; the technique contributes history search and exact replay only."),
  "C13": dict(level="fault_enumeration", ref="DESIGN.md §2, §4",
     technique="deterministic simulation with fault injection: frame-level fault injector (drop/dup/swap/delay/truncate/corrupt/stray/empty/random/sender crash/snooper restart) on a simulated CAN bus, systematic single faults at every position plus seeded multi-fault search",
     text="Per seeded well-formed base stream every fault kind is applied at every position (then seeded double faults, random multi-fault sequences and fully random frame sequences); the real reassembler behind direct/text/bus entry points is judged on never raising, reporting only what the delivered frames justify (subsequence DP), one report per first frame, and reassembling a fresh transfer after the last fault. Enumeration is complete only per sampled base stream; base streams are sampled.",
@@ -9,6 +13,5 @@ PENDING = {
  "C05": "claimed by design (DESIGN.md §5) but its check is not built yet in this commit",
  "C11": "claimed by design (DESIGN.md §9) but its check is not built yet in this commit",
  "C14": "claimed by design (DESIGN.md §6) but its check is not built yet in this commit",
- "C16": "claimed by design (DESIGN.md §7) but its check is not built yet in this commit",
  "C17": "claimed by design (DESIGN.md §8) but its check is not built yet in this commit",
 }
